@@ -56,6 +56,12 @@ TEMPLATES = [
     ("ansi", "insert into {w} select {c} from {a}; create index i1 on {a} (k); insert into {e} select {d} from {w}"),
     ("ansi", "insert into {w} select {c} from {a}; selec {c} frm {b}"),
     ("ansi", "grant select on {a} to u1"),
+    # same bare name in different schemas across query blocks (outer FROM item vs table inside a derived table / predicate subquery), UPDATE and MERGE too
+    ("ansi", "update {w} set {c} = t4.{c} from s.t4 join (select k from s2.t4) q on t4.k = q.k where {w}.k = t4.k"),
+    ("ansi", "merge into {w} using (select p.k, p.{c} from s.t5 p join s2.t5 on p.k = s2.t5.k) q on {w}.k = q.k when matched then update set {c} = q.{c}"),
+    ("ansi", "insert into {w} select t6.{c} from s.t6 where t6.k in (select k from s2.t6)"),
+    ("ansi", "insert into {w} select q.{c}, t1.{d} from (select {c}, k from s2.t1) q join s.t1 on t1.k = q.k"),
+    ("ansi", "update {w} set {c} = q.{c} from (select t2.{c}, t2.k from s.t2 join s2.t2 x on t2.k = x.k) q, s2.t2 where {w}.k = q.k"),
 ]
 
 
@@ -96,6 +102,9 @@ def collect_cases(ctx):
     if ctx.quick:
         tp = tp[(ctx.seed % 8):: 8]
     cases += [{"sql": e["sql"], "dialect": "ansi", "metadata": None, "origin": "tpcds"} for e in tp]
+    # every template once with fixed arguments (the random stream below draws them in scripts of 1-4 statements)
+    for ti, (dl, tpl) in enumerate(TEMPLATES):
+        cases.append({"sql": tpl.format(w="s.w1", a="s.t1", b="s2.t2", e="s.t3", c=COLS[0], d=COLS[1]), "dialect": dl, "metadata": None, "origin": "template"})
     # generated: Hypothesis is used as the seeded generator; the property is decided across processes afterwards
     gen = []
 
